@@ -997,18 +997,20 @@ inline ShWorld &shworld(World &W, size_t nmax, unsigned le, unsigned acoin = 0, 
 	return *cache[k];
 }
 
-struct ShSt : VStackSt { ShWorld *S; int proto, mode; GrothVSSHE *vsAlt; HooghSchoenmakersSkoricVillegasVRHE *vrAlt; std::string vstext, vrtext;
-	ShSt() : S(NULL), proto(0), mode(0), vsAlt(NULL), vrAlt(NULL) {}
+struct ShSt : VStackSt { ShWorld *S; int proto, mode; GrothVSSHE *vsAlt; HooghSchoenmakersSkoricVillegasVRHE *vrAlt; std::string vstext, vrtext; bool foreign_edcf;
+	ShSt() : S(NULL), proto(0), mode(0), vsAlt(NULL), vrAlt(NULL), foreign_edcf(false) {}
 	~ShSt() { delete vsAlt; delete vrAlt; } };
 
 // proto 0: GrothVSSHE directly, 1: through TMCG_*StackEquality_Groth*, 2: VRHE directly, 3: through TMCG_*_Hoogh*
 // mode  0: interactive (direct only), 1: public coin, 2: non-interactive
-inline CellP make_shuffle(ShWorld &S, int proto, int mode, size_t n, const std::vector<size_t> &pi)
+// foreign_edcf: the coin-flipping instance of the public-coin forms lives in ANOTHER group with a longer subgroup order (the
+// caller supplies it separately), so the jointly flipped coins have to be reduced modulo the order of the proof's own group
+inline CellP make_shuffle(ShWorld &S, int proto, int mode, size_t n, const std::vector<size_t> &pi, bool foreign_edcf = false)
 {
 	CellP c(new Cell);
 	std::shared_ptr<ShSt> st(new ShSt);
 	World &W = *S.W;
-	st->W = &W, st->S = &S, st->n = n, st->pi = pi, st->proto = proto, st->mode = mode;
+	st->W = &W, st->S = &S, st->n = n, st->pi = pi, st->proto = proto, st->mode = mode, st->foreign_edcf = foreign_edcf;
 	st->tP = new SchindelhauerTMCG(8, 2, 3), st->tV = new SchindelhauerTMCG(8, 2, 3);
 	c->keep = st;
 	static const char *pn[] = {"vsshe", "groth", "vrhe", "hoogh"}, *mn[] = {"int", "pc", "ni"};
@@ -1022,6 +1024,11 @@ inline CellP make_shuffle(ShWorld &S, int proto, int mode, size_t n, const std::
 		if (st->mode == 1 && !st->eP)
 		{
 			BarnettSmartVTMF_dlog *A = st->W->A, *B = st->W->B;
+			if (st->foreign_edcf)
+			{
+				World &F = world(st->W->psize + 64, st->W->qsize + 64);
+				A = F.A, B = F.B;
+			}
 			st->eP = new JareckiLysyanskayaEDCF(2, 0, A->p, A->q, A->g, A->h);
 			st->eV = new JareckiLysyanskayaEDCF(2, 0, B->p, B->q, B->g, B->h);
 		}
@@ -1710,12 +1717,28 @@ inline std::vector<Spec> specs(int purpose, const std::string &tier, const std::
 					}
 				}
 	}
+	// ---- public-coin forms with a coin-flipping instance over a foreign group whose subgroup order is 64 bits longer
+	//      (added after seeded change C03-6): VSSHE / Groth wrapper / VRHE / Hoogh wrapper, n = 2 and 3
+	if (!c5)
+	{
+		LeCfg L = les[3];   // l_e = 64, 512/192: the public-coin and non-interactive forms need l_e >= 64 resp. 32
+		for (size_t n = 2; n <= 3; n++)
+			for (int proto = 0; proto < 4; proto++)
+			{
+				if ((proto < 2 && !want("groth")) || (proto >= 2 && !want("hoogh"))) continue;
+				if (!le_ok(L.le, 1)) continue;
+				std::vector<size_t> p = proto < 2 ? perm_of(n, n == 2 ? 1 : 4) : rot_of(n, 1);
+				static const char *pn4[] = {"vsshe", "groth", "vrhe", "hoogh"};
+				add_spec(v, std::string(pn4[proto]) + "1:foreign-edcf:g" + drv::str(L.ps) + ":n" + drv::str(n), thorough ? 8 : 3,
+					[L, n, p, proto]() { return make_shuffle(shworld(world(L.ps, L.qs), n, L.le), proto, 1, n, p, true); });
+			}
+	}
 	// ---- independent construction on both sides + public coin, with MORE generators than the fast-exponentiation tables hold
 	//      (TMCG_MAX_FPOWM_N = 256): N = 257 and 260, stacks of 2 cards (quick) and of N cards (thorough); all three proof forms
 	//      (added after seeded change C03-5: generators beyond the 256th were not re-derived from the coin)
 	if (want("groth") && !c5)
 	{
-		LeCfg L = les[0];
+		LeCfg L = les[3];   // l_e = 64, 512/192: the public-coin and non-interactive forms need l_e >= 64 resp. 32
 		for (size_t N = 257; N <= 260; N += 3)
 			for (int full = 0; full < (thorough ? 2 : 1); full++)
 				for (int mode = 0; mode < 3; mode++)
